@@ -34,6 +34,10 @@ def entry(cls, name, use_bias=True, activation="relu", extra=None):
     cfg.update({"use_bias": use_bias, "activation": activation, "units": 4, "recurrent_activation": "sigmoid"})
   if cls == "Activation":
     cfg.update({"activation": activation})
+  if cls == "Bidirectional":
+    inner = lambda n: {"class_name": "LSTM", "config": {"name": n, "trainable": True, "use_bias": use_bias, "units": 4,
+                                                        "activation": activation, "recurrent_activation": "sigmoid"}}
+    cfg.update({"merge_mode": "concat", "layer": inner("fwd_lstm"), "backward_layer": inner("bwd_lstm")})
   if cls in ("AveragePooling2D", "GlobalAveragePooling2D"):
     cfg.update({"pool_size": [2, 2]})
   if cls == "BatchNormalization":
@@ -93,6 +97,18 @@ def oracle(e, qc, bits):
       ra = lookup(qc, name, qcls, "recurrent_activation_quantizer")
       if ra:
         cfg["recurrent_activation"] = ra
+    return e
+  if cls == "Bidirectional":
+    # selected by the wrapper's name or the QBidirectional class entry; the entry configures both wrapped layers, each
+    # becoming its quantized counterpart; not selected -> left as it was
+    q = lookup(qc, name, "QBidirectional")
+    if q is None or q.get("kernel_quantizer") is None:
+      return e
+    for key in ("layer", "backward_layer"):
+      if key in cfg:
+        sub = cfg[key]
+        cfg[key] = oracle(sub, {sub["config"]["name"]: q}, bits)
+    e["class_name"] = "QBidirectional"
     return e
   if cls == "Activation":
     q = lookup(qc, name, "QActivation")
@@ -192,19 +208,25 @@ def mq_scenario(cls, sel, use_bias, act, transfer):
     target = entry(cls, name, use_bias, act)
     other = entry("Flatten", "flat_0")
     other2 = entry("Dense", "dense_unselected", True, "softmax")
-    doc = {"class_name": "Functional", "config": {"name": "m", "layers": [other, target, other2],
+    # Keras 3 documents carry "registered_name": None for built-in classes, "<package>><class>" for registered custom ones;
+    # a custom layer AFTER the target must come through untouched whatever happened to the layers before it
+    custom_layer = {"class_name": "Scale2", "name": "scale2", "registered_name": "MyPkg>Scale2",
+                    "config": {"name": "scale2", "trainable": True}, "inbound_nodes": [[["prev", 0, 0, {}]]]}
+    for e_ in (other, target, other2):
+      e_["registered_name"] = None
+    doc = {"class_name": "Functional", "config": {"name": "m", "layers": [other, target, other2, custom_layer],
                                                   "input_layers": [["in", 0, 0]], "output_layers": [["out", 0, 0]]}}
     qc = qconfig(cls, name, sel)
     snap_doc, snap_qc = pycopy.deepcopy(doc), pycopy.deepcopy(qc)
     custom = {"my_obj": "user-object"}
     snap_custom = dict(custom)
     captured = {}
-    src_w = [["w0"], [], ["w2", "b2"]]
+    src_w = [["w0"], [], ["w2", "b2"], []]
     set_calls = []
 
     def mk_layers(kind):
       out = []
-      for i in range(3):
+      for i in range(4):
         o = Obj(ExtClass("Layer"), {"get_weights": Builtin("get_weights", lambda ip_, _i=i: list(src_w[_i]))})
         if kind == "q":
           o.attrs["set_weights"] = Builtin("set_weights", lambda ip_, w, _i=i: set_calls.append((_i, list(w))))
@@ -229,6 +251,10 @@ def mq_scenario(cls, sel, use_bias, act, transfer):
       s.claim("rebuilt_from_json", False)
       return s
     layers = got["config"]["layers"]
+    for e_ in layers:
+      # model_quantize pops "registered_name" and re-inserts it only when set: an absent key and None are the same to Keras
+      if isinstance(e_, dict):
+        e_.setdefault("registered_name", None)
     exp = oracle(target, snap_qc, 4)
     cls_json = target["class_name"]
     selected = exp["class_name"] != cls_json
@@ -238,7 +264,10 @@ def mq_scenario(cls, sel, use_bias, act, transfer):
     s.claim("entry_as_specified", layers[1] == exp)
     s.claim("others_untouched", layers[0] == other and layers[2] == oracle(other2, snap_qc, 4) and
             {k: v for k, v in got["config"].items() if k != "layers"} ==
-            {k: v for k, v in snap_doc["config"].items() if k != "layers"} and len(layers) == 3)
+            {k: v for k, v in snap_doc["config"].items() if k != "layers"} and len(layers) == 4)
+    if layers[3] != custom_layer:
+      s.info["raised"] = "custom layer entry changed: %r" % (layers[3],)
+    s.claim("later_custom_layer_untouched", layers[3] == custom_layer)
     s.claim("no_mutation", doc == snap_doc and qc == snap_qc and custom == snap_custom and
             captured.get("custom") is not custom)
     if transfer:
@@ -251,7 +280,7 @@ def mq_scenario(cls, sel, use_bias, act, transfer):
 
 def cases(tier):
   out = []
-  classes = WEIGHT + ["DepthwiseConv2D", "SimpleRNN", "LSTM", "GRU", "Activation", "BatchNormalization",
+  classes = WEIGHT + ["DepthwiseConv2D", "SimpleRNN", "LSTM", "GRU", "Bidirectional", "Activation", "BatchNormalization",
                       "AveragePooling2D", "GlobalAveragePooling2D", "Flatten", "ReLU", "ReLU_leaky", "LeakyReLU"]
   for cls in classes:
     for sel in ("none", "name", "class", "both", "partial_class", "partial_name_plus_class"):
